@@ -156,6 +156,33 @@ pub fn gen_sources(rng: &mut Rng, tier: &Tier) -> Vec<Case> {
         }
         cases.push(c);
     }
+    // `clone_from` between two sources built from the same expression, each somewhere in its own stream: afterwards the
+    // destination is where the source of the copy is (mid-lap, mid-padding, with a pending look-ahead), not at a start
+    for _ in 0..tier.n(120, 1200) {
+        let e = src_expr(rng, 2, true);
+        let top = *rng.pick(&["peek", "scache", "src", "src"]);
+        let mut c = vec![format!("new 1 {} {}", top, e), format!("new 2 {} {}", top, e)];
+        let op = |rng: &mut Rng| -> &'static str {
+            match top {
+                "peek" => if rng.chance(1, 2) { "peek" } else { "pull" },
+                "scache" => if rng.chance(1, 3) { "cached" } else { "pull" },
+                _ => "pull",
+            }
+        };
+        for _ in 0..rng.range(0, 7) {
+            c.push(format!("{} 1", op(rng)));
+        }
+        for _ in 0..rng.range(0, 7) {
+            c.push(format!("{} 2", op(rng)));
+        }
+        c.push("sclonefrom 1 2".into());
+        for _ in 0..rng.range(2, 9) {
+            let o = op(rng);
+            let which = if rng.chance(2, 3) { 1 } else { 2 };
+            c.push(format!("{} {}", o, which));
+        }
+        cases.push(c);
+    }
     // sources that are NOT fused (an end marker, then items again): `Peek` must hand out a peeked end marker like
     // any other peeked answer (`Peekable`), plain pulls and the cache wrapper pass the raw answers through
     for _ in 0..tier.n(120, 1200) {
@@ -347,6 +374,36 @@ pub fn gen_sinks(rng: &mut Rng, tier: &Tier) -> Vec<Case> {
                 let v = level + rng.range(-1000, 1000);
                 c.push(if as_filter { format!("ff 1 {}", v) } else { format!("sink 1 {}", v) });
                 c.push("fin 1".into());
+            }
+            cases.push(c);
+        }
+    }
+    // short integer streams within a narrow range: the truncated running mean often lands exactly on the minimum or the
+    // maximum although the stream is not constant — each statistic is still its own recurrence's value
+    for kind in ["sink_stats_i64", "sink_meanvar_i64", "sink_mean_i64"] {
+        for _ in 0..tier.n(30, 300) {
+            let as_filter = rng.chance(1, 2);
+            let base = rng.range(-3, 3);
+            let mut c = vec![format!("new 1 {}", kind)];
+            for _ in 0..rng.range(2, 6) {
+                let v = base + rng.range(0, 2);
+                c.push(if as_filter { format!("ff 1 {}", v) } else { format!("sink 1 {}", v) });
+                c.push("fin 1".into());
+            }
+            cases.push(c);
+        }
+    }
+    // "the combined statistics sink agrees with the individual ones": next to the mean-variance sink, sample by sample
+    for (a, b) in [("sink_stats_i64", "sink_meanvar_i64"), ("sink_stats", "sink_meanvar")] {
+        for _ in 0..tier.n(30, 300) {
+            let base = rng.range(-3, 3);
+            let narrow = rng.chance(2, 3);
+            let mut c = vec![format!("new 1 {}", a), format!("new 2 {}", b), "kagree 1 2 C11.combined-agrees".to_string()];
+            for _ in 0..rng.range(1, 6) {
+                let v = if narrow { base + rng.range(0, 2) } else { rng.range(-9, 9) };
+                c.push(format!("sink 1 {}", v));
+                c.push(format!("sink 2 {}", v));
+                c.push("kagree 1 2 C11.combined-agrees".into());
             }
             cases.push(c);
         }
